@@ -372,10 +372,11 @@ def merge(g, a, b):
         return VStr(merge(g, a.id, b.id), None, by if not isinstance(by, VPoison) else None)
     if isinstance(a, VMap):
         # a lazily empty map (no key sort yet) merged with a used one: the empty side is the constant-false presence array
-        if a.ksort is None and b.ksort is not None and a.val is None and b.val is None:
-            a = VMap(b.ksort, z3.K(b.ksort, z3.BoolVal(False)), None, a.count, a.cap, a.enum)
-        elif b.ksort is None and a.ksort is not None and a.val is None and b.val is None:
-            b = VMap(a.ksort, z3.K(a.ksort, z3.BoolVal(False)), None, b.count, b.cap, b.enum)
+        # (its values are irrelevant: nothing is present -- the other side's value arrays are taken)
+        if a.ksort is None and b.ksort is not None and a.val is None:
+            a = VMap(b.ksort, z3.K(b.ksort, z3.BoolVal(False)), b.val, a.count, a.cap, a.enum)
+        elif b.ksort is None and a.ksort is not None and b.val is None:
+            b = VMap(a.ksort, z3.K(a.ksort, z3.BoolVal(False)), a.val, b.count, b.cap, b.enum)
         return VMap(a.ksort, merge(g, a.present, b.present), merge(g, a.val, b.val), merge(g, a.count, b.count), a.cap, a.enum if a.enum is not None else b.enum)
     if isinstance(a, VClosure):
         if a.name != b.name:
